@@ -572,6 +572,10 @@ type cutCase struct {
 	CutAt   int       `json:"cut_at"`   // backend request index at which the connection is cut
 	CutKind string    `json:"cut_kind"` // close-before | close-after-apply | close-after-reply | close-mid | idle
 	Repeat  int       `json:"repeat"`   // cut again this many requests later (0 = no)
+	// DelayMicros: batch delay of the pool (0 = 200): a long delay puts the callers' requests into one batch
+	DelayMicros uint32 `json:"batch_delay_micros,omitempty"`
+	// Status: cut kind "status": the backend answers that request with this error status instead
+	Status uint16 `json:"status,omitempty"`
 }
 
 func c13(e *env) {
@@ -702,11 +706,24 @@ func c13(e *env) {
 			{Kind: "get", Items: []stack.GItem{{Key: []byte("d-a"), Opaque: 1}}}}}},
 		{Pool: 1, CutAt: 1, CutKind: "close-mid", Callers: [][]hCall{{{Kind: "set", Key: "d-a", Data: big, Flags: 7},
 			{Kind: "get", Items: []stack.GItem{{Key: []byte("d-a"), Opaque: 0}, {Key: []byte("d-a"), Opaque: 0}}}}}},
+		// one batch (long batch delay) holding a get that is fully answered and a set whose reply is lost
+		{Pool: 1, CutAt: 2, CutKind: "close-before", DelayMicros: 30000, Callers: [][]hCall{
+			{{Kind: "get", Items: []stack.GItem{{Key: []byte("d-missing"), Opaque: 1}}}},
+			{{Kind: "set", Key: "d-b", Data: []byte("x")}, {Kind: "set", Key: "d-c", Data: []byte("y")}}}},
+		{Pool: 1, CutAt: 1, CutKind: "close-before", DelayMicros: 30000, Callers: [][]hCall{
+			{{Kind: "get", Items: []stack.GItem{{Key: []byte("d-missing"), Opaque: 1}}}},
+			{{Kind: "set", Key: "d-b", Data: []byte("x")}}}},
+		// the backend refuses a key that is not the last one of a multi-key get with an error status
+		{Pool: 1, CutAt: 2, CutKind: "status", Status: 0x82, Callers: [][]hCall{{{Kind: "set", Key: "d-a", Data: big, Flags: 7},
+			{Kind: "get", Items: []stack.GItem{{Key: []byte("d-a"), Opaque: 1}, {Key: []byte("d-a"), Opaque: 2}, {Key: []byte("d-a"), Opaque: 3}}}}}},
+		{Pool: 1, CutAt: 2, CutKind: "status", Status: 0x85, Repeat: 3, Callers: [][]hCall{{{Kind: "set", Key: "d-a", Data: big, Flags: 7},
+			{Kind: "get", Items: []stack.GItem{{Key: []byte("d-a"), Opaque: 1}, {Key: []byte("d-a"), Opaque: 2}, {Key: []byte("d-a"), Opaque: 3}}}}}},
 	} {
 		runCutCase(e, w, dc)
 	}
+	kinds = append(kinds, "status")
 	for i := 0; i < ncut; i++ {
-		c := cutCase{Pool: 1 + r.Intn(3), CutAt: r.Intn(12), CutKind: kinds[r.Intn(len(kinds))]}
+		c := cutCase{Pool: 1 + r.Intn(3), CutAt: r.Intn(12), CutKind: kinds[r.Intn(len(kinds))], Status: []uint16{0x82, 0x85, 0x86, 0x84}[r.Intn(4)]}
 		if r.Chance(30) {
 			c.Repeat = 1 + r.Intn(5)
 		}
@@ -766,15 +783,24 @@ func runCutCase(e *env, w *rig.Writer, c cutCase) {
 	l, _ := fb.ListenUnix(sock)
 	defer func() { l.Close(); fb.CloseAll() }()
 	opts := batched.Opts{BatchSize: 4, BatchDelayMicros: 200}
+	if c.DelayMicros > 0 {
+		opts.BatchDelayMicros = c.DelayMicros
+	}
 	batched.NewHandler(sock, opts)
 	for p := 1; p < c.Pool; p++ {
 		batched.VerifAddConn(sock)
+	}
+	if c.CutKind == "status" {
+		fb.SetFault(c.CutAt, fakemc.Fault{Kind: fakemc.FStatus, Status: c.Status})
+		if c.Repeat > 0 {
+			fb.SetFault(c.CutAt+c.Repeat, fakemc.Fault{Kind: fakemc.FStatus, Status: c.Status})
+		}
 	}
 	fk := map[string]fakemc.FaultKind{"close-before": fakemc.FCloseBefore, "close-after-apply": fakemc.FCloseAfterApply,
 		"close-after-reply": fakemc.FCloseAfterReply, "close-mid": fakemc.FCloseMid}
 	if c.CutKind == "idle" {
 		fb.CloseAll()
-	} else {
+	} else if c.CutKind != "status" {
 		fb.SetFault(c.CutAt, fakemc.Fault{Kind: fk[c.CutKind]})
 		if c.Repeat > 0 {
 			fb.SetFault(c.CutAt+c.Repeat, fakemc.Fault{Kind: fk[c.CutKind]})
